@@ -1,6 +1,11 @@
 #!/bin/bash
-# final detection of every round-4 change by its property's own quick check, on isolated copies, P at a time
-P=${1:-4}
+# final detection of every round-4 change by its property's own quick check, on isolated copies. Several run at once, so the
+# wall-clock budgets of the checks are raised (VERIF_BUDGET_S): the same enumeration, not cut short by the neighbours' load.
+# The checks that use the controlled scheduler run one at a time.
 cd /verif
-for p in $(seq -w 1 20); do for m in r4m1 r4m2; do echo "C$p $m"; done; done | xargs -P $P -L 1 sh -c 'python3 tools/seed.py detect_iso $0 $1 quick > /var/tmp/seedrec/final-$0-$1.txt 2>&1; echo "$0 $1 $(grep -o "\"detected\": [a-z]*" /var/tmp/seedrec/final-$0-$1.txt | head -1)"'
-python3 tools/seed.py detect_iso C08 r4m2 quick C10 > /var/tmp/seedrec/final-C08-r4m2-byC10.txt 2>&1; echo "C08 r4m2 by C10 $(grep -o '"detected": [a-z]*' /var/tmp/seedrec/final-C08-r4m2-byC10.txt | head -1)"
+export VERIF_BUDGET_S=1200
+one() { python3 tools/seed.py detect_iso $1 $2 quick $3 > /var/tmp/seedrec/final-$1-$2.txt 2>&1; echo "$1 $2 ${3:+by $3 }$(grep -o '"detected": [a-z]*' /var/tmp/seedrec/final-$1-$2.txt | head -1)"; }
+export -f one
+( for p in 08 11 14 15 17; do for m in r4m1 r4m2; do one C$p $m; done; done; one C08 r4m2 C10 ) &
+for p in 01 02 03 04 05 06 07 09 10 12 13 16 18 19 20; do for m in r4m1 r4m2; do echo "C$p $m"; done; done | xargs -P 3 -L 1 bash -c 'one $0 $1'
+wait
